@@ -666,7 +666,7 @@ class Model:
         agent_ids = self.agent_type_map[agent_type]
 
         for agent_id in agent_ids:
-            if self.agents[agent_id].state == state:
+            if self.agent(agent_id).state == state:
                 agent_count += 1
 
         return agent_count
